@@ -3,27 +3,31 @@ import TwigModel.Render
 open Lean
 namespace Twig.Ops
 
-/-- JSON → Val: null | bool | integer | {"s":hex} | {"l":[…]} | {"m":[[hexkey,val],…]} -/
-partial def valOfJson (j : Json) : Except String Val :=
-  match j with
-  | .null => pure .null
-  | .bool x => pure (.bool x)
-  | .num n => if n.exponent == 0 then pure (.int n.mantissa) else throw "non-integer number"
-  | .obj _ =>
-    match j.getObjVal? "s" with
-    | .ok s => do pure (.str (← Proto.asBytes s))
-    | .error _ =>
-      match j.getObjVal? "l" with
-      | .ok (.arr xs) => do pure (.list (← xs.toList.mapM valOfJson))
-      | _ =>
-        match j.getObjVal? "m" with
-        | .ok (.arr kvs) => do
-          let ps ← kvs.toList.mapM fun kv => match kv with
-            | .arr #[k, v] => do pure ((← Proto.asBytes k), (← valOfJson v))
-            | _ => throw "bad map entry"
-          pure (.map (ps.foldl (fun acc kv => mapInsert kv.1 kv.2 acc) []))
-        | _ => throw "bad value object"
-  | _ => throw "bad value"
+/-- JSON → Val: null | bool | integer | {"s":hex} | {"l":[…]} | {"m":[[hexkey,val],…]}; nesting depth ≤ fuel -/
+def valOfJsonF : Nat → Json → Except String Val
+  | 0, _ => throw "value nested too deeply"
+  | f+1, j =>
+    match j with
+    | .null => pure .null
+    | .bool x => pure (.bool x)
+    | .num n => if n.exponent == 0 then pure (.int n.mantissa) else throw "non-integer number"
+    | .obj _ =>
+      match j.getObjVal? "s" with
+      | .ok s => do pure (.str (← Proto.asBytes s))
+      | .error _ =>
+        match j.getObjVal? "l" with
+        | .ok (.arr xs) => do pure (.list (← xs.toList.mapM (valOfJsonF f)))
+        | _ =>
+          match j.getObjVal? "m" with
+          | .ok (.arr kvs) => do
+            let ps ← kvs.toList.mapM fun kv => match kv with
+              | .arr #[k, v] => do pure ((← Proto.asBytes k), (← valOfJsonF f v))
+              | _ => throw "bad map entry"
+            pure (.map (ps.foldl (fun acc kv => mapInsert kv.1 kv.2 acc) []))
+          | _ => throw "bad value object"
+    | _ => throw "bad value"
+
+def valOfJson (j : Json) : Except String Val := valOfJsonF 64 j
 
 def bytesList (j : Json) (k : String) : Except String (List Bytes) :=
   match j.getObjVal? k with
